@@ -102,6 +102,21 @@ func (c05Driver) Generate(t *tape.Tape, tier string) core.Case {
 	if name := addOlderRevision(t.Sub("revisions"), g.S, 6); name != "" {
 		c.Injected = append(c.Injected, "two-revisions-of-"+name)
 	}
+	// order trap: two different modules declare the same namespace (every
+	// namespace-to-module lookup then fails, with one and the same message)
+	if nt := t.Sub("sharedns"); nt.Chance(1, 30) {
+		var tops []*model.Mod
+		for _, m := range g.S.Mods {
+			if !m.IsSub() && m.Name != model.PosixModule {
+				tops = append(tops, m)
+			}
+		}
+		if len(tops) >= 2 {
+			p := nt.Perm(len(tops))
+			tops[p[0]].NS = tops[p[1]].NS
+			c.Injected = append(c.Injected, "shared-namespace")
+		}
+	}
 	ot := t.Sub("options")
 	c.Options.StoreUses = ot.Chance(1, 4)
 	c.Options.IgnoreNotSupported = ot.Chance(1, 6)
